@@ -144,3 +144,15 @@ def k5_query(cont, mode, n, prop, rmethod=None, rlen=2, ts='no', timeout=600):
                  meta={'kind': 'k5', 'cont': cont, 'mode': mode, 'rmethod': rmethod, 'n': n, 'prop': prop, 'ts': ts, 'rlen': rlen,
                        'mem_gb': (6 if heavy else 2) * (1 if n <= 2 else 3),
                        'weight': WEIGHT.get(cont, 2) * (8 ** (n - 1)) * (6 if rmethod == 'insert_range' else 2)})
+
+
+def counted_query(cont, n, ksteps, prop, timeout=600):
+    """C08: instance-counting value type through construction, K symbolic calls, destruction"""
+    nkeys = n + 1 if cont in ('utmap',) else n + 2
+    defs = {'CONT_API': '"api_%s.hpp"' % cont, 'HCAP': n, 'KSTEPS': ksteps, 'PROP': prop, 'TS': 'no', 'NKEYS': nkeys,
+            'VSTD_TAB_MAX': n + 1, 'VSTD_LIST_MAX': n + 1}
+    name = 'cnt_%s_n%d_k%d_p%d' % (cont, n, ksteps, prop)
+    return Query(name, 'k1_counted.cpp', defs, unwind=max(ksteps + 1, n + 4), timeout=timeout, standard_checks=(prop == 8),
+                 cbmc_defines=([] if prop == 8 else ['VF_CHECK_ASSUME']),
+                 meta={'kind': 'cnt', 'cont': cont, 'n': n, 'k': ksteps, 'prop': prop, 'ts': 'no',
+                       'mem_gb': K1_MEM.get(cont, 2) * max(1, ksteps - 1), 'weight': WEIGHT.get(cont, 2) * 64 * ksteps})
